@@ -178,7 +178,8 @@ def abstract_tables(space, status, entry_id, used_names=None):
 def build(chains, root):
     jobs = []
     for i, ch in enumerate(chains):
-        jobs.append(dict(cmd="run", lang="python", files={"p.py": ch.render()}, dir=os.path.join(root, "r%04d" % i), settings=SETTINGS, flags=["--nomock"],
+        js = ch.lang == "javascript"
+        jobs.append(dict(cmd="run", lang=ch.lang, files={"p.js" if js else "p.py": ch.render()}, dir=os.path.join(root, "r%04d" % i), settings=SETTINGS, flags=["--nomock"],
                          export=["gir", "s2space_p3", "stmt_status_p3"], timeout=600, _chain=ch))
     return jobs
 
@@ -205,7 +206,7 @@ def case_of(job, r):
 
 def collect(tier, seed, v, root, keep=None):
     """-> (cases, verdicts, totals): shared by C08 and C09."""
-    chains = VG.universe(tier, seed)
+    chains = VG.universe(tier, seed) + VG.js_universe(tier, seed)
     if keep is not None:
         chains = [c for c in chains if keep(c.name)]
     jobs = build(chains, root)
@@ -230,7 +231,7 @@ def show(d):
 
 def signature(case_name, d, lines):
     kind, steps = case_name.split("__")
-    return "value_not_covered:%s:%s" % (kind, steps)
+    return "value_not_covered:%s:%s" % (kind, steps)       # kind: int | str | lit<j> | jsint | jsstr
 
 
 def run(tier, seed):
